@@ -163,7 +163,33 @@ impl Prop for C15Prop {
         // C01's oracles stay armed so that the history continuing on a derived graph is checked too,
         // but only C15's own findings are C15's to report: C01 violations before the first derived op are dropped
         let arms = Arms { c15: true, c01: true, ..Default::default() };
-        lifecycle::drive(case, cx, &arms);
+        let end = lifecycle::drive(case, cx, &arms);
+        if let Some((g, _, _)) = &end {
+            let names: Vec<String> = g.get_all_node_names().into_iter().cloned().collect();
+            if cx.viol.is_empty() && names.len() >= 4 && names.len() <= 200 && Rng::new(case.seed, "config.wrap").chance(1, 3000) {
+                // counters that wrap: the same selection again after exactly 2^8, 2^15, 2^16 (+-1) calls on this thread
+                if let Ok(tiny) = real::build(Specs::kind(g.specs.directed, false, false), &[Op::AddNodes(vec![("w".to_string(), None), ("v".to_string(), None)])]) {
+                    let half = names.len() / 2;
+                    let (s1, s2): (Vec<String>, Vec<String>) = (names[..half].to_vec(), names[half..].to_vec());
+                    let w = vec!["w".to_string()];
+                    crate::props::algo::wrap_probe(
+                        cx,
+                        "C15",
+                        "get_subgraph",
+                        1,
+                        |k| {
+                            let sel = if k % 2 == 0 { &s1 } else { &s2 };
+                            let sub = rt::call("get_subgraph", B, || g.get_subgraph(sel)).ok()?;
+                            let o = real::observe(&sub).ok()?;
+                            Some(format!("{:?} {:?}", o.nodes, o.canon(false)))
+                        },
+                        || {
+                            let _ = rt::call("get_subgraph(filler)", B, || tiny.get_subgraph(&w).number_of_nodes());
+                        },
+                    );
+                }
+            }
+        }
         let first_derived = case.ops.iter().position(|o| o.is_derived()).unwrap_or(usize::MAX);
         let _ = first_derived;
         for v in cx.viol.iter_mut() {
@@ -180,7 +206,7 @@ impl Prop for C15Prop {
         let _ = (results, cx);
     }
     fn rule(&self) -> String {
-        "lifecycle histories over all 96 specs in which get_subgraph / reverse / set_all_edge_weights / to_single_edges are applied at random points (source = a graph produced by duplicate policies, re-added nodes, restarts) and the history continues on the result; each derived op: outcome (WrongMethod for the wrong kind), result vs the model's definition (nodes in original order with attributes, exact edge multiset, summed weights at 1e-9), result specs, source graph unchanged, reverse twice = identity, C02/C03 oracles on the result, C01 oracles on the continued history; 2 hash keyings. distinct_nontrivial = distinct (specs, history) with >= 1 derived operation executed; one case in 2500 loads 2 100 - 12 500 edges (one to three batches or the constructor, same edge values re-submitted on multi-edge graphs) into 45-180 nodes and continues with a short tail (strategy thresholds); the large histories come in variants: dense (45-180 nodes), 2 048 - 2 600 nodes declared in one call, a hub with 1 100 - 1 600 neighbours; in half of them a load of 260-420 edges into ANOTHER graph is rejected part-way on the same thread first (fault, then recovery, at scale)".into()
+        "lifecycle histories over all 96 specs in which get_subgraph / reverse / set_all_edge_weights / to_single_edges are applied at random points (source = a graph produced by duplicate policies, re-added nodes, restarts) and the history continues on the result; each derived op: outcome (WrongMethod for the wrong kind), result vs the model's definition (nodes in original order with attributes, exact edge multiset, summed weights at 1e-9), result specs, source graph unchanged, reverse twice = identity, C02/C03 oracles on the result, C01 oracles on the continued history; 2 hash keyings. distinct_nontrivial = distinct (specs, history) with >= 1 derived operation executed; one case in 2500 loads 2 100 - 12 500 edges (one to three batches or the constructor, same edge values re-submitted on multi-edge graphs) into 45-180 nodes and continues with a short tail (strategy thresholds); the large histories come in variants: dense (45-180 nodes), 2 048 - 2 600 nodes declared in one call, a hub with 1 100 - 1 600 neighbours; in half of them a load of 260-420 edges into ANOTHER graph is rejected part-way on the same thread first (fault, then recovery, at scale); histories with 10 001 - 13 000 nodes and with groups of more than 1 024 parallel edges on one pair; one case in 3 000 repeats get_subgraph with alternating selections after exactly 2^8, 2^15, 2^16 (+-1) further calls on the thread (counter wrap-around)".into()
     }
     fn assumptions(&self) -> Vec<String> {
         vec!["edge attributes of to_single_edges results are not specified and not compared".into(), "summed weights compared at 1e-9 relative (then adopted by the model)".into()]
